@@ -44,6 +44,30 @@ TEXTS = {
         note="Trusted: sort.Float64s for the model, Shewchuk exact summation for the reference sum. Both readings of floor(q*(n-1)) (exact / binary64) accepted.",
         technique="stateful model-based property testing (rapid state machine) against a sorted multiset",
     ),
+    'C06': dict(
+        text="Generated-input round-trip and metamorphic search: sources built by generated histories over all store kinds/mappings/both variants are encoded (omit on/off, arbitrary buffer prefix with/without spare capacity) and decoded into targets of all five kinds; decoded content must equal fold_target(source content) exactly, decoding into a non-empty receiver must equal merging into a copy, a concatenation must decode to the merge, the prefix/backing array must be untouched and the source unchanged. A second generator checks each arbitrary float64 weight against the documented (w+1)-1 transform bit for bit.",
+        design_ref="DESIGN.md §2 C06",
+        note="Trusted: exact model + fold model; refdec only for labelling which wire layouts occurred.",
+        technique="property-based round-trip / metamorphic testing (rapid) against an exact model",
+    ),
+    'C07': dict(
+        text="Differential testing against an independent implementation of the wire format written from its documentation (harness/refdec): (A) every produced encoding must parse completely with documented flags only and yield exactly the sketch's content and statistics; (B) streams generated from the documented grammar (any block order, all three layouts, negative/zero/large strides, repeated indexes and blocks, N=0 blocks, statistics blocks) must decode into all five store kinds to the content the documentation assigns; (C) the plain decoder must accept exact-summary encodings. Thorough adds a coverage-guided fuzz campaign over direction B. Re-detects repaired finding F2.",
+        design_ref="DESIGN.md §2 C07",
+        note="Trusted: refdec as the reading of the documentation (a symmetric encoder+decoder deviation from the documentation is caught because refdec shares no code with the repository).",
+        technique="differential property-based testing (rapid + native fuzzing) against an independent reference codec; grammar-based stream generation",
+    ),
+    'C08': dict(
+        text="Fault enumeration: for each sampled valid encoding (all producer store kinds hence layouts, 3 mappings, both variants, mapping embedded/omitted) EVERY truncation point, undefined flags at EVERY block boundary (8 sampled per boundary in quick, all in thorough), mapping mismatches and the missing-mapping case are tried against 5 store kinds x 3 decoding APIs x mapping supplied/nil under recover; strictly-inside cuts and faults must return an error, boundary cuts must succeed and hold exactly the complete blocks' content as read by the independent parser; no panic. Re-detects repaired finding F3.",
+        design_ref="DESIGN.md §2 C08",
+        note="Trusted: refdec block boundaries/field offsets. Encodings are sampled, faults per encoding are complete. Garbage input outside the stated fault classes is deliberately not asserted.",
+        technique="fault enumeration over generated encodings (every cut point, every undefined flag per boundary) with an independent parser as oracle; native fuzzing in thorough",
+    ),
+    'C09': dict(
+        text="Generated-input round-trip search over the protobuf forms: history-built sketches (dyadic weights), one-arbitrary-weight-per-index sketches (bit-exactness) and hand-built messages mixing binCounts and contiguousBinCounts are marshalled, unmarshalled and rebuilt with every store kind; rebuilt content must equal fold_target(source content) with identical weight bits; the streaming EncodeProto bytes must unmarshal to a message proto.Equal to ToProto() and rebuild identically; MergeWithProto into empty and non-empty stores adds up.",
+        design_ref="DESIGN.md §2 C09",
+        note="Trusted: google.golang.org/protobuf; exact model.",
+        technique="property-based round-trip testing (rapid) with exact model and proto.Equal differential between streaming and in-memory writers",
+    ),
     'C10': dict(
         text="Model-based stateful property testing of the exact-summary variant with a plain twin: generated histories over adds (incl. weight 0 and rejected values), merges, decode-merges, copies, clears, reweights, encode/decode and up to three ChangeMapping unit changes; after every step count, emptiness, min and max must equal the exact statistics of the absorbed (value, weight) list bit for bit, the sum must be within a derived few-ulp bound of the arbitrary-precision reference, every quantile must lie in [min,max], and while the state is dyadic every quantile must equal clamp(plain twin's answer, min, max) exactly.",
         design_ref="DESIGN.md §2 C10, §1.1",
@@ -85,6 +109,12 @@ TEXTS = {
         design_ref="DESIGN.md §2 C16",
         note="Trusted: exactness budget for scaled weights (dyadic factors); model scaling.",
         technique="metamorphic property testing (rapid): replay-with-scaled-weights twin plus exact model",
+    ),
+    'C17': dict(
+        text="Generated-input search with validity predicates derived from the conversion's specification: for ordered mapping pairs (3x3 kinds; coarser, finer, equal, bin-aligned) and scales in [1e-3,1e3], the result must carry the requested mapping, leave the source unchanged, keep zero weight exactly and total weight within a derived bound, hold no negative bin (observed through forms that show non-positive bins), place weight only in target bins overlapping scaled source bins (isolated source bins hand over exactly their weight), answer every quantile from a target bin overlapping the scaled range of a source bin within one unit of rank, be an exact independent copy for the identity conversion, and rescale exact statistics. Re-detects repaired finding F6.",
+        design_ref="DESIGN.md §2 C17",
+        note="Trusted: LowerBound of both mappings for the overlap predicates (C03 checks them). Values kept well inside both ranges as the property requires.",
+        technique="property-based testing (rapid) with conservation / locality / rank-window validity predicates",
     ),
     'C18': dict(
         text="Generated-input search: seeded rapid generators of uint64/int64/float64 values (bit-length classes, 2^k+-d, non-finite, subnormal, +1-rounding) and random byte strings, checked against an independent reference codec written from the format documentation (byte-for-byte encodings, sizes, exact consumption with trailing bytes, EOF on every strict prefix without consuming), plus complete enumeration of all byte strings of length <= 2 per decoder and all 256 flags; thorough adds a coverage-guided native fuzz campaign. Exploration is the right level: the property is a for-all over bit patterns with an executable differential oracle.",
